@@ -86,7 +86,6 @@ Variables (o : opts) (ms : list mig) (k : N) (d : dbstate) (n : nat).
 Hypothesis Hasc : ascending ms = true.
 Hypothesis Hi32 : versions_u32 ms = true.
 Hypothesis Hat : at_version k d = true.
-Hypothesis Hnc : id_conflict ms d = false.
 
 Lemma step_rem : forall sched q pid,
   let s := steps o ms sched (init_sys n d) in
@@ -96,7 +95,7 @@ Proof.
   destruct (nth_error (s_insts s) q) as [p|] eqn:En.
   - destruct (Nat.eqb_spec q pid) as [->|Hne].
     + unfold rem. simpl s_insts. rewrite (set_nth_same _ _ _ _ En), En.
-      pose proof (instances_ok_or_err o ms k d Hasc Hi32 Hat Hnc n sched p (nth_error_In' _ _ _ En)) as Hp.
+      pose proof (instances_ok_or_err o ms k d Hasc Hi32 Hat n sched p (nth_error_In' _ _ _ En)) as Hp.
       fold s in Hp.
       destruct (i_res (p_inst p)) eqn:Er.
       * unfold pstep. rewrite Er. simpl. unfold mu. rewrite Er. lia.
@@ -135,7 +134,7 @@ Proof.
   unfold rem in Hz.
   destruct (nth_error (s_insts (steps o ms sched (init_sys n d))) pid) as [p|] eqn:En.
   - exists p. split; [reflexivity|].
-    pose proof (instances_ok_or_err o ms k d Hasc Hi32 Hat Hnc n sched p (nth_error_In' _ _ _ En)) as Hp.
+    pose proof (instances_ok_or_err o ms k d Hasc Hi32 Hat n sched p (nth_error_In' _ _ _ En)) as Hp.
     unfold finished. unfold mu in Hz. destruct (i_res (p_inst p)); [reflexivity|].
     exfalso. destruct (p_todo p) as [|x r]; [apply Hp; reflexivity|].
     destruct (existsb is_readids (x :: r)); simpl in Hz; lia.
@@ -145,7 +144,7 @@ Qed.
 End Term.
 
 Theorem instance_terminates : forall o ms k d n sched pid,
-  ascending ms = true -> versions_u32 ms = true -> at_version k d = true -> id_conflict ms d = false ->
+  ascending ms = true -> versions_u32 ms = true -> at_version k d = true ->
   pid < n -> steps_bound o ms <= count_occ Nat.eq_dec sched pid ->
   exists p, nth_error (s_insts (steps o ms sched (init_sys n d))) pid = Some p /\ finished p = true.
-Proof. intros o ms k d n sched pid Ha Hi Hk Hf. exact (instance_terminates_sec o ms k d n Ha Hi Hk Hf sched pid). Qed.
+Proof. intros o ms k d n sched pid Ha Hi Hk. exact (instance_terminates_sec o ms k d n Ha Hi Hk sched pid). Qed.
